@@ -62,6 +62,13 @@ Lemma exec_descend f ovf t s top ps i r :
            | o => o
            end
        end
+   | TEnum rw vs, PEnum _ d _ =>
+       if negb (i =? d) then Ok (s, top, [-1]) else
+       match find_variant d vs with
+       | Some (TStruct []) => Ok (s, top, [-2])
+       | Some _ => exec f ovf t s top (ps ++ [PV]) r
+       | None => Panic
+       end
    | _, _ => SKIPPED
    end).
 Proof. reflexivity. Qed.
